@@ -199,8 +199,10 @@ def lib_value(tree):
 
 
 class Fail(list):
+    """Counterexamples, at most 3 per obligation name (the first ones found)."""
+
     def add(self, obligation, witness, detail):
-        if len(self) < 12:
+        if sum(1 for f in self if f["obligation"] == obligation) < 3 and len(self) < 60:
             self.append({"obligation": obligation, "witness": witness, "detail": detail})
 
 
